@@ -252,6 +252,8 @@ class OpsMixin:
         return a is b
 
     def num_compare(self, op, a, b):
+        if isinstance(a, int) and isinstance(b, int):     # exact, whatever the size
+            return {"<": a < b, "<=": a <= b, ">": a > b, ">=": a >= b, "==": a == b}[op]
         x, y = SymNum.of(a), SymNum.of(b)
         if x.conc is not None and y.conc is not None:
             p, q = x.conc, y.conc
@@ -324,6 +326,8 @@ class OpsMixin:
         if isinstance(a, (ClassRef, BuiltinType, HashVal)):
             return a == b
         if isinstance(a, str) or isinstance(b, str) or a is None or b is None:
+            if isinstance(a, str) and isinstance(b, str):
+                return str.__eq__(a, b)
             return (a == b) if type(a) is type(b) else False
         if isinstance(a, (FuncInfo, BoundMethod, Closure, ModRef, ExtRef, ExcObj, RegexObj)):
             return a is b
@@ -737,6 +741,8 @@ class OpsMixin:
             return recv is args[0]
         if name == "__object_hash__":
             return HashVal(("id", recv.oid if isinstance(recv, Obj) else id(recv)))
+        if isinstance(recv, BuiltinType) and recv.name == "str" and args and isinstance(args[0], str):
+            return self.call_native_method(args[0], name, list(args[1:]), kwargs)      # str.lower(s) etc.
         if isinstance(recv, SymNum):
             if name == "is_integer":
                 if recv.conc is not None:
@@ -968,6 +974,17 @@ class OpsMixin:
             for x in it:
                 acc = self.call(f, [acc, x], {})
             return acc
+        if name == "sys.intern":
+            if len(args) != 1 or not isinstance(args[0], str):
+                self.raise_builtin("TypeError", "intern() argument must be str")
+            import sys as _sys
+            return _sys.intern(str(args[0]))      # the canonical (plain) object for this value
+        if name.startswith("unicodedata."):
+            import unicodedata
+            fn = getattr(unicodedata, name.split(".", 1)[1], None)
+            if fn is None or not all(isinstance(a, str) for a in args):
+                raise Unsupported(f"external call {name}")
+            return fn(*args)
         if name in ("copy.copy", "copy.deepcopy"):
             return self.copy_value(args[0], deep=name.endswith("deepcopy"), memo={})
         if name == "math":
@@ -1042,8 +1059,33 @@ class OpsMixin:
             return Maybe(f"isclose({a!r}, {b!r})")
         if fn in ("fabs",):
             return self.call_builtin("abs", [self._real(args[0], fn)], {})
+        if fn == "modf":
+            v = args[0]
+            if isinstance(v, int):          # math.modf converts an int to a C double first
+                try:
+                    v = float(v)
+                except OverflowError:
+                    self.raise_builtin("OverflowError", "int too large to convert to float")
+                f, i = math.modf(v)
+                return (SymNum.of(f), SymNum.of(i))
+            x = self._real(v, fn)
+            if x.conc is None:
+                q = self.quantise(x, "trunc")
+                return (self.num_binop("Sub", x, q), self.num_binop("Mult", q, SymNum.of(1.0)))
+            f, i = math.modf(x.conc)
+            return (SymNum.of(f), SymNum.of(i))
         if fn == "copysign":
-            raise Unsupported("math.copysign")
+            a, b = self._real(args[0], fn), self._real(args[1], fn)
+            if a.conc is not None and b.conc is not None:
+                return SymNum.of(math.copysign(a.conc, b.conc))
+            mag = self.call_builtin("abs", [a], {})
+            if b.iv.all_gt(0):
+                neg = False
+            elif b.iv.all_lt(0):
+                neg = True
+            else:
+                neg = self.decide(Maybe(f"{b!r} < 0 in math.copysign"))
+            return self.neg(mag) if neg else mag
         if fn == "pow":
             x, y = self._real(args[0], fn), self._real(args[1], fn)
             r = self.num_binop("Pow", x, y if not (isinstance(args[1], int)) else args[1])
